@@ -14,6 +14,7 @@ functions over the two declared bounds, so that the C19 theorems are re-checked 
                      objects by identity), `structural` (a helper that recurses through get_type() and compares the
                      aggregate class at every level), `structuralNoKind` (recursion without comparing the class)
 
+  membershipDefined  all four containers define __contains__ as `return value is not None and value in self._container`
   builtinMethod      which container method each EXPRESS built-in function of Builtin.py (SIZEOF HIINDEX LOINDEX HIBOUND LOBOUND
                      VALUE_UNIQUE) returns, after its `isinstance(V, Aggregate)` guard
 
@@ -297,8 +298,29 @@ def extract(repo):
     for k in ("LIST", "BAG", "SET"):
         a = _int_call_arg(_method(cls[k], "get_loindex"), f"{k}.get_loindex")
         lo[k] = _expr(a)
+    # `value in container`: every class defines __contains__ as `return value is not None and value in self._container`, or none does
+    want = ast.dump(ast.parse("return value is not None and value in self._container", mode="exec").body[0]) if False else None
+    want = ast.dump(ast.parse("def f(self, value):\n    return value is not None and value in self._container").body[0].body[0])
+    has = []
+    for k in ("ARRAY", "LIST", "BAG", "SET"):
+        m = [n for n in cls[k].body if isinstance(n, ast.FunctionDef) and n.name == "__contains__"]
+        if not m:
+            has.append(False); continue
+        body = [b for b in m[0].body if not (isinstance(b, ast.Expr) and isinstance(getattr(b, "value", None), ast.Constant))]
+        if len(m) != 1 or len(body) != 1 or ast.dump(body[0]) != want or [a.arg for a in m[0].args.args] != ["self", "value"]:
+            raise ValueError(f"{k}.__contains__ is not `return value is not None and value in self._container`")
+        has.append(True)
+    if any(has) and not all(has):
+        raise ValueError("__contains__ is defined by some of ARRAY/LIST/BAG/SET only")
+    for k in ("ARRAY", "LIST", "BAG", "SET"):
+        if any(isinstance(n, ast.FunctionDef) and n.name == "__iter__" for n in cls[k].body):
+            raise ValueError(f"{k}.__iter__ is defined: the membership test is not modelled for it")
     out = f"""-- GENERATED by tools/extract.d/pyagg.py from {REL}
 namespace StepModel.Generated
+
+/-- ARRAY, LIST, BAG and SET define `__contains__` as `return value is not None and value in self._container` (EXPRESS `IN`);
+`false`: none does (python falls back to `__getitem__` from 0 — LIST answers False for everything — or raises TypeError) -/
+def membershipDefined : Bool := {"true" if all(has) else "false"}
 
 /-- `ARRAY.__init__`: `list_size = ...`, the number of preallocated slots -/
 def arrayAlloc (b1 b2 : Int) : Int := {alloc}
